@@ -43,4 +43,4 @@ def tree_to_json(tree: Node, **kargs) -> str:
 
 
 def json_to_tree(serialized: str, **kargs) -> Node:
-    return json.loads(serialized, default=as_node, **kargs)
+    return as_node(json.loads(serialized, **kargs))
